@@ -741,6 +741,62 @@ func statusCase(w *vgen.Writer, r *vgen.Rand) {
 	w.Add(fmt.Sprintf("CStatus [%s] [%s]", strings.Join(ws, "; "), strings.Join(reads, "; ")), d, "status", n > 1)
 }
 
+// statusStorm: n spans; for each, one goroutine calls SetStatus(Ok) and another SetStatus(Error), released
+// together (a two-party rendezvous per span: each announces its arrival and waits for the other, yielding
+// now and then). Both calls have returned before End is invoked, so every span must end with status Ok.
+// Judged directly; returns the number of anomalies.
+func statusStorm(w *vgen.Writer, n int) int {
+	anomalies := 0
+	const batch = 20000
+	for done := 0; done < n && !stuck.Load(); done += batch {
+		m := min(batch, n-done)
+		desc := map[string]any{"fragment": "status-storm", "spans": m}
+		watchdog(w, "SetStatus storm", desc, 30*time.Second, func(w *proxy) {
+			e := newEnv(0)
+			spans := make([]trace.Span, m)
+			for i := range spans {
+				_, spans[i] = e.tr.Start(context.Background(), "root", trace.WithNewRoot())
+			}
+			var at [2]atomic.Int64
+			var wg sync.WaitGroup
+			for g := 0; g < 2; g++ {
+				wg.Add(1)
+				go func(g int) {
+					defer wg.Done()
+					for i := 0; i < m; i++ {
+						at[g].Store(int64(i + 1))
+						for k := 0; at[1-g].Load() < int64(i+1); k++ {
+							if k&63 == 63 {
+								runtime.Gosched()
+							}
+						}
+						if (g == 0) == (i&1 == 0) { // alternate who brings which code
+							spans[i].SetStatus(codes.Ok, "")
+						} else {
+							spans[i].SetStatus(codes.Error, "e")
+						}
+					}
+				}(g)
+			}
+			wg.Wait()
+			bad := 0
+			for i, sp := range spans {
+				sp.End()
+				if st := sp.(sdktrace.ReadOnlySpan).Status(); st.Code != codes.Ok {
+					bad++
+					if bad == 1 {
+						w.Violation(fmt.Sprintf("SetStatus(Ok) and SetStatus(Error) raced on a span, both returned before End, yet the status is %v %q (Ok must win)", st.Code, st.Description),
+							map[string]any{"fragment": "status-storm", "span_in_batch": i})
+					}
+				}
+			}
+			anomalies += bad
+			w.Tally("status-storm:batch")
+		})
+	}
+	return anomalies
+}
+
 // ---- generators ----
 
 func genOp(r *vgen.Rand, endWeight int) op {
@@ -1283,6 +1339,12 @@ func main() {
 			anomalies += stormLoop(w, r, tracing, nStorm/2, "storm")
 		})
 	}
+	if !*raceChild {
+		t0 := time.Now()
+		nStatus := o.Count(300000, 3000000)
+		sa := statusStorm(w, nStatus)
+		w.Extra["status_storm"] = fmt.Sprintf("%d spans with racing SetStatus(Ok)/SetStatus(Error), %d anomalies, %s", nStatus, sa, time.Since(t0).Round(time.Millisecond))
+	}
 	w.Extra["storm_trials"] = nStormCorpus + nStorm/2*2
 	w.Extra["storm_sample_rate"] = fmt.Sprintf("1/%d of unremarkable storm trials are sent to Coq; every trial with a delivery count other than P or more than one snapshot is sent", stormSample)
 	w.Extra["anomalous_trials"] = anomalies
@@ -1325,19 +1387,23 @@ func raceTier(w *vgen.Writer, o vgen.Opts) {
 	// accessor calls: any race is a violation. Pass 2 includes it: a race whose writer is that accessor
 	// (recordingSpan.Attributes -> dedupeAttrs rewriting, in place, the backing array the delivered snapshot
 	// shares) is finding F-C10-2, rendered as a case with that code; any other race is a violation.
+	// Pass 1 stops at the first report. Pass 2 runs to the end and EVERY report is classified, so that the
+	// known race cannot hide another one in the same code (e.g. two in-place de-duplications racing).
+	knownReports := 0
+	var knownDesc map[string]any
 	for pass, extra := range [][]string{{"-skip-live-attrs"}, {}} {
 		args := append([]string{"-race-child", "-seed", strconv.FormatUint(o.Seed, 10), "-tier", "quick", "-out", sub}, extra...)
 		run := exec.CommandContext(ctx, bin, args...)
-		run.Env = append(os.Environ(), "GORACE=halt_on_error=1 exitcode=66")
+		run.Env = append(os.Environ(), "GORACE=halt_on_error="+strconv.Itoa(1-pass)+" exitcode=66")
 		var buf bytes.Buffer
 		run.Stdout, run.Stderr = &buf, &buf
 		err := run.Run()
-		rep := buf.String()
-		if i := strings.Index(rep, "WARNING: DATA RACE"); i >= 0 {
-			rep = rep[i:]
-			// the two conflicting accesses are the first two blocks of the report
-			blocks := strings.SplitN(strings.TrimPrefix(rep, "WARNING: DATA RACE\n"), "\n\n", 3)
-			desc := map[string]any{"report": tail(rep, 6000), "pass": pass + 1}
+		out := buf.String()
+		reports := strings.Split(out, "WARNING: DATA RACE\n")[1:]
+		for _, rep := range reports {
+			// the two conflicting accesses are the first two blocks of a report
+			blocks := strings.SplitN(rep, "\n\n", 3)
+			desc := map[string]any{"report": "WARNING: DATA RACE\n" + tail(rep, 6000), "pass": pass + 1, "reports_in_this_pass": len(reports)}
 			known := false
 			if pass == 1 && len(blocks) >= 2 {
 				for k := 0; k < 2; k++ {
@@ -1349,18 +1415,26 @@ func raceTier(w *vgen.Writer, o vgen.Opts) {
 					}
 				}
 			}
-			if known {
-				w.Add("CRace 2", desc, "race-detector", true)
-				w.Extra["race_detector"] = "pass 1 (without Attributes() on the live span) clean; pass 2: the F-C10-2 race"
+			if !known {
+				w.Violation("data race reported by the race detector in the free-running fragment", desc)
 				return
 			}
-			w.Violation("data race reported by the race detector in the free-running fragment", desc)
+			knownReports++
+			knownDesc = desc
+		}
+		if len(reports) == 0 && err != nil {
+			w.Extra["race_detector"] = "inconclusive: " + err.Error() + " " + tail(out, 2000)
 			return
 		}
-		if err != nil {
-			w.Extra["race_detector"] = "inconclusive: " + err.Error() + " " + tail(rep, 2000)
+		if strings.Contains(out, "panic:") || strings.Contains(out, "fatal error:") {
+			w.Violation("the free-running fragment crashed under the race detector", map[string]any{"output": tail(out, 6000), "pass": pass + 1})
 			return
 		}
+	}
+	if knownReports > 0 {
+		w.Add("CRace 2", knownDesc, "race-detector", true)
+		w.Extra["race_detector"] = fmt.Sprintf("pass 1 (without Attributes() on the live span) clean; pass 2: %d report(s), all of them the F-C10-2 race", knownReports)
+		return
 	}
 	w.Extra["race_detector"] = "free-running fragment re-run under go build -race (with and without Attributes() on the live span): no data race reported"
 }
